@@ -203,7 +203,16 @@ fn check_tape(tape: &[u8], gates: &Gates, stats: &mut Stats, counting: bool, cli
         gates.take_wanted();
         return Ok(());
     }
-    let chunks = chunks_of(&unit.lib, gates);
+    let mut chunks = chunks_of(&unit.lib, gates);
+    // third variant: a valid unit in which one declaration is written twice (identical text).
+    // Only the verdict is compared (which copy is "the duplicate" may depend on the order).
+    let duplicate = !use_fault && choice.ratio(1, 2) && gates.want("DUPLICATED_DECLARATION");
+    if duplicate {
+        let d = choice.below(chunks.len());
+        let copy = chunks[d].clone();
+        chunks.push(copy);
+    }
+    let n = chunks.len();
     let canonical = Arrangement { files: vec![(0..n).collect()] };
     let base = observe_analyze(&canonical, &chunks).map_err(|(k, d)| Failure::new("canonical", &k, d, json!({"chunks": chunks})))?;
     if base.parse_failed {
@@ -296,7 +305,7 @@ fn check_tape(tape: &[u8], gates: &Gates, stats: &mut Stats, counting: bool, cli
         }
     }
     if counting {
-        stats.class(if single_fault { "unit.single-fault" } else { "unit.valid" });
+        stats.class(if single_fault { "unit.single-fault" } else if duplicate { "unit.duplicated-declaration" } else { "unit.valid" });
         stats.absorb_gates(gates);
         if stats.samples.len() < 3 {
             stats.samples.push(json!({"chunks": chunks, "arrangements_checked": arrangements.len(), "canonical_codes": base.codes}));
@@ -318,7 +327,7 @@ pub fn run(ctx: &Ctx) -> i32 {
         ctx.tier,
         ctx.seed,
         "exploration",
-        "units of <= 5 top-level declarations with cross references (valid, or one planted fault), one chunk per declaration: ALL permutations of the chunks, ALL set partitions into <= 3 files x ALL file orders, plus random permuted partitions; verdict (and for single-fault units the code multiset and every mappable primary label as (code, chunk, offset in chunk, length)) must equal the canonical single file. analyze() with explicit library order decides; Project::semantic() on fresh in-memory projects (4 per sampled arrangement: fresh HashMap seeds) and `ironplcc check` in fresh processes with permuted arguments are sampled. Non-trivial: >= 3 declarations, >= 2 reference edges, arrangement != canonical; distinct by (arrangement, chunks).",
+        "units of <= 5 top-level declarations with cross references (valid, one planted fault, or one declaration written twice), one chunk per declaration: ALL permutations of the chunks, ALL set partitions into <= 3 files x ALL file orders, plus random permuted partitions; verdict (and for single-fault units the code multiset and every mappable primary label as (code, chunk, offset in chunk, length)) must equal the canonical single file. analyze() with explicit library order decides; Project::semantic() on fresh in-memory projects (4 per sampled arrangement: fresh HashMap seeds) and `ironplcc check` in fresh processes with permuted arguments are sampled. Non-trivial: >= 3 declarations, >= 2 reference edges, arrangement != canonical; distinct by (arrangement, chunks).",
     );
     let gates = ctx.gates_for("C06");
     let off = gates.off_list();
